@@ -44,7 +44,7 @@ var sPos = []float64{
 	minF, 3 * minF, 2.225073858507201e-308 /* largest subnormal */, minNrm, 1e-8,
 	0.25, 0.49999999999999994, 0.5, 0.5000000000000001, math.Pi / 4, 0.9999999999999999, 1, 1.0000000000000002, 1.5, math.Pi / 2, 2, 2.5,
 	math.E, 3, math.Pi, 3.5, 4, 10, 709.78, 710, 745.14,
-	p2_31, p2_52 - 0.5, p2_52, p2_52 + 1, p2_53 - 1, p2_53, p2_63, maxF,
+	p2_31, 1e22, p2_52 - 0.5, p2_52, p2_52 + 1, p2_53 - 1, p2_53, p2_63, maxF,
 }
 
 // sExtra extends S in the thorough tier (more magnitudes, thresholds of exp/log/sqrt/pow).
